@@ -402,6 +402,14 @@ func c08KeyFilter(c *Ctx, m map[string]interface{}, key string, specs []string, 
 
 func c08FilterShape(conds []cond) string {
 	neg, wild, typed := false, false, false
+	for i, c := range conds {
+		for _, d := range conds[:i] {
+			if c.key == d.key {
+				// known finding C08-two-conditions-on-one-key has exactly this shape
+				return "two-conditions-on-one-key"
+			}
+		}
+	}
 	for _, c := range conds {
 		if c.neg {
 			neg = true
@@ -554,6 +562,26 @@ func c08Run(c *Ctx) {
 			}
 		}
 	}
+	// Maps that hold a key literally named "*": the wildcard still means every key, each value once
+	gstar := newGen(GenP{Keys: []string{"a", "*", "k"}, MaxList: 2, MaxKeys: 3, EmptyList: false, EmptyMap: true, ListInList: false})
+	gstar.rootMaps(4, func(t *T) {
+		if !strings.Contains(t.String(), "*") {
+			return
+		}
+		for _, key := range []string{"*", "a", "k"} {
+			if !c.Mine() {
+				continue
+			}
+			c.S.States++
+			c.S.Evaluations++
+			for _, pol := range []int{rt.PolicySorted, rt.PolicyReverse} {
+				rt.OrderPolicy = pol
+				c08Key(c, inst(t, strLeaves()).(map[string]interface{}), key, nil)
+				c.S.Schedules++
+			}
+			rt.OrderPolicy = rt.PolicySorted
+		}
+	})
 	// wide family: more results than the internal initial capacity (32) and its first doubling (64)
 	for _, width := range []int{31, 32, 33, 63, 64, 65, 70} {
 		for _, key := range []string{"k", "x", "*", "w05", "l", "m"} {
@@ -590,8 +618,10 @@ func c08Run(c *Ctx) {
 		}
 		for i, s := range single {
 			for j := i + 1; j < len(single); j++ {
-				// distinct condition keys (the sub-key table is keyed by the literal key text)
-				if strings.Split(s, sep)[0] == strings.Split(single[j], sep)[0] {
+				// two conditions on one key are a combination like any other ("satisfy every condition"); a
+				// fifth of them is enough to cover every kind of pair
+				sameKey := strings.TrimPrefix(strings.Split(s, sep)[0], "!") == strings.TrimPrefix(strings.Split(single[j], sep)[0], "!")
+				if sameKey && (i+j)%5 != 0 {
 					continue
 				}
 				// pairs: keep those mixing a and z or plain and negated
